@@ -269,7 +269,8 @@ impl TopicActor {
 
     fn delete(&mut self) -> Result<(), DeleteError> {
         if self.deleted {
-            return Ok(());
+            // Another delete got here first; this one did not delete anything.
+            return Err(DeleteError::Closed);
         }
 
         // Mark the topic as deleted.
